@@ -243,6 +243,19 @@ var failClasses = []string{"syntax", "undefined-reference", "duplicate-type", "d
 // touchContent writes valid content that modifies existing definitions (extends, schema block).
 func touchContent(t *rapid.T, s *hx.Schema, n int, label string) string {
 	var b strings.Builder
+	// the extensions may bring a directive use along (the directive is defined by the same document)
+	usesDir := false
+	dir := func(name string) string {
+		if rapid.IntRange(0, 2).Draw(t, label+name+"dir") != 0 {
+			return ""
+		}
+		usesDir = true
+		return fmt.Sprintf(" @zqtd%d", n)
+	}
+	if rapid.IntRange(0, 5).Draw(t, label+"builtinScalar") == 0 {
+		usesDir = true
+		fmt.Fprintf(&b, "extend scalar String @zqtd%d\n", n)
+	}
 	for _, td := range s.Types {
 		if rapid.IntRange(0, 2).Draw(t, label+td.Name) != 0 {
 			continue
@@ -256,19 +269,27 @@ func touchContent(t *rapid.T, s *hx.Schema, n int, label string) string {
 			// (members with defaults: validation coerces values against the extended definition, and
 			// coercing an input object fills defaults in)
 			arg := []string{"", "(a: Int = 3)", "(a: [Int] = [1, 2], b: String)"}[rapid.IntRange(0, 2).Draw(t, label+td.Name+"arg")]
-			fmt.Fprintf(&b, "extend %s %s { zq%d%s: Int }\n", kw, td.Name, n, arg)
+			fmt.Fprintf(&b, "extend %s %s%s { zq%d%s: Int }\n", kw, td.Name, dir(td.Name), n, arg)
 		case hx.KEnum:
-			fmt.Fprintf(&b, "extend enum %s { ZQ%d }\n", td.Name, n)
+			fmt.Fprintf(&b, "extend enum %s%s { ZQ%d }\n", td.Name, dir(td.Name), n)
 		case hx.KInput:
 			dflt := []string{"", " = 5", " = 5", " = null"}[rapid.IntRange(0, 3).Draw(t, label+td.Name+"dflt")]
-			fmt.Fprintf(&b, "extend input %s { zq%d: Int%s }\n", td.Name, n, dflt)
+			fmt.Fprintf(&b, "extend input %s%s { zq%d: Int%s }\n", td.Name, dir(td.Name), n, dflt)
 		case hx.KUnion:
-			fmt.Fprintf(&b, "type ZqM%d { a: Int }\nextend union %s = ZqM%d\n", n, td.Name, n)
+			fmt.Fprintf(&b, "type ZqM%d { a: Int }\nextend union %s%s = ZqM%d\n", n, td.Name, dir(td.Name), n)
 		case hx.KScalar:
 			// a scalar may be declared again (files tend to declare the scalars they use): the first
 			// declaration stays as it is
-			fmt.Fprintf(&b, "\"declared again in load %d\"\nscalar %s\n", n, td.Name)
+			if rapid.Bool().Draw(t, label+td.Name+"again") {
+				fmt.Fprintf(&b, "\"declared again in load %d\"\nscalar %s\n", n, td.Name)
+			} else {
+				usesDir = true
+				fmt.Fprintf(&b, "extend scalar %s @zqtd%d\n", td.Name, n)
+			}
 		}
+	}
+	if usesDir {
+		b.WriteString(fmt.Sprintf("directive @zqtd%d(w: Int = 2) on OBJECT | ENUM | INPUT_OBJECT | UNION | SCALAR\n", n))
 	}
 	return b.String()
 }
